@@ -1,8 +1,9 @@
 (* C14 — Multi-objective optimizers keep a consistent, feasible, elitist population.
    Only statements + `exact`; executable models (definitions only): C14Model.v (selection, one-at-a-time loop, penalizing
    evaluator, steady-state step), C14Ind.v (epsilon / hypervolume / crowding indicators), C14Nsga3.v, C14Var.v (SBX, polynomial
-   mutation, tournament, elitist selection), C14Loop.v (generation loop); proofs: C14Proofs.v, C14IndProofs.v,
-   C14CrowdProofs.v, C14Nsga3Proofs.v, C14VarProofs.v, C14LoopProofs.v; dominance / rank definition / hv_spec /
+   mutation, tournament, elitist selection), C14Loop.v (generation loop), C14Init.v (init(function, startingPoints) + doInit of
+   the seven optimisers); proofs: C14Proofs.v, C14IndProofs.v, C14CrowdProofs.v, C14Nsga3Proofs.v, C14VarProofs.v,
+   C14LoopProofs.v, C14InitProofs.v; dominance / rank definition / hv_spec /
    contrib2d are imported from C13Model.v, C13Proofs.v, C13ProofsContrib.v.
 
    PROVED here (axiom-free; lists, nat, Z, Q; all population sizes, dimensions, mu):
@@ -71,6 +72,25 @@
        offspring of its generation, solution() reports (point, f(closest feasible point)) = (point, f(point)) for feasible
        points, and every predicate on search points that holds initially and for all offspring (inside the box, by the
        variation theorems) holds for every reported point (C14_generation_loop_invariant);
+     * INITIALISATION from caller-supplied starting points AS CODED (C14Init.v: values[i] = f(P[i]); numPoints = |P| if |P| <= mu
+       else 0; slots below numPoints = the starting points in order, every other slot = P[index] for a random index, the (penalized,
+       unpenalized) pair read from the SAME index; m_best = (search point, unpenalized fitness); RVEA's population size from the
+       lattice; SteadyStateMOCMA's sortRankOneToFront; random indices = explicit oracle list; run next to init(function, points)
+       and init(function) of all seven optimisers on every check, stream N).  For every non-empty P (duplicates allowed), every
+       mu and EVERY oracle: exactly mu members (C14_init_population_has_mu_members); every member's search point is an element
+       of P and its fitness pair is (f x, f x) = (fp x, f x) for ITS OWN search point x, fp any penalized evaluation agreeing with
+       f on P (C14_init_members_from_starting_points_consistent, C14_init_fitness_pair_of_own_point); with |P| <= mu the first
+       |P| members are P in order (C14_init_keeps_all_points_when_at_most_mu); for an oracle as random::discrete produces it the
+       population is P's first numPoints points followed by P[oracle[k]] -- with MORE than mu points that is mu random copies
+       with replacement, NOT the first mu points (C14_init_population_structure,
+       C14_init_more_than_mu_points_all_random_copies: the code's behaviour, stated as it is); solution() after init has mu
+       elements (x, f x), x in P (C14_init_solution_consistent); sortRankOneToFront is a permutation that puts the rank-1
+       individuals first and leaves a partitioned population unchanged, for ANY rank test, so SteadyStateMOCMA's initial
+       parents / solution are a permutation of the above with the same member-wise statements (C14_sort_rank_one_to_front,
+       C14_init_steady_state_mocma); the initial population satisfies the loop invariant, hence for every list of feasible
+       starting points, oracle, history and number of generations solution() keeps mu elements (x, f(closest feasible x))
+       (C14_init_then_generations_invariant); RVEA's computed population size is >= approxMu
+       (C14_rvea_population_size_at_least_approx_mu); C14_init_examples: worked instances (fewer / more points than mu);
      * the steady-state theorem with its hypothesis restricted to the fronts the selection can hand over
        (C14_steady_state_hv_monotone_front_hypothesis) and DISCHARGED for the coded 2-objective HypervolumeIndicator path
        (C14_steady_state_hv_monotone_coded_indicator_2d: hypotheses only on the data: 2 objectives, all points <= ref);
@@ -93,6 +113,13 @@
      * mating selection + variation inside generateOffspring / createOffspring of the optimisers (the operators are
        modelled and proved separately; their composition with the optimiser's random stream is only observed);
        MOEAD and RVEA (different update rules: monitored only); CMA step-size / covariance updates (C11);
+     * initialisation: that init() REJECTS a list containing an infeasible starting point (observed: shark::Exception from every
+       optimiser; the monitor accepts rejection or a run that satisfies all monitors); the ranks the selection inside doInit assigns
+       (argument is1 of the SteadyStateMOCMA model; monitored against the rank definition); MOEAD's weight-lattice sampling and
+       NSGA-III's reference points (only their effect on the generator stream is replayed by the harness); that the random indices
+       of the model run ARE the generator's stream (compared on every run: the harness replays random::discrete on a copy of the
+       generator; a population that is a legal outcome for other indices only is reported as a broken correspondence);
+       RealCodedNSGAIII::doInit (preference points) is not reachable through init() and is not modelled;
      * the per-generation invariants on the REAL optimiser runs of MOCMA, SteadyStateMOCMA, SMSEMOA, RealCodedNSGAII/III,
        MOEAD, RVEA (size, value = objective at the closest feasible point, box, hypervolume monotone): monitored;
      * serialization: a run that is written to a text archive after k steps, read into a fresh optimizer object and continued
@@ -101,6 +128,8 @@
 From Coq Require Import List ZArith Arith QArith.
 From SharkV Require Import ListAux C13Model C13Proofs C13ProofsContrib C14Model C14Proofs C14Ind C14IndProofs.
 From SharkV Require Import C14Nsga3 C14Nsga3Proofs C14CrowdProofs C14Var C14VarProofs C14Loop C14LoopProofs.
+From SharkV Require Import C14Init C14InitProofs.
+From Coq Require Import Permutation.
 Import ListNotations.
 Close Scope Q_scope.
 
@@ -552,3 +581,131 @@ Theorem C14_loop_example :
     [([4], [4; 2]); ([3], [3; 3]); ([5], [5; 1])]%Z.
 Proof. exact loop_example. Qed.
 Print Assumptions C14_loop_example.
+
+(* ---------------------------------------------------------------------------------------------------------------------- *)
+(* INITIALISATION from caller-supplied starting points (C14Init.v: init + doInit of the seven optimisers as coded, the random
+   indices an explicit oracle list).  X: search points, V: objective vectors, f: the deterministic objective.  Every statement is
+   for EVERY non-empty list of starting points P (duplicates allowed), every mu and every oracle (valid or not). *)
+
+Theorem C14_init_population_has_mu_members :
+  forall (X V : Type) (f : X -> V) (P : list X) (mu : nat) (oracle : list nat),
+    P <> [] -> length (init_parents X V f P mu oracle) = mu.
+Proof. exact init_parents_length. Qed.
+Print Assumptions C14_init_population_has_mu_members.
+
+(* every member's search point is one of the starting points, and its fitness pair belongs to ITS OWN search point *)
+Theorem C14_init_members_from_starting_points_consistent :
+  forall (X V : Type) (f : X -> V) (P : list X) (mu : nat) (oracle : list nat) (m : iind X V),
+    In m (init_parents X V f P mu oracle) ->
+    In (ipt m) P /\ ipen m = f (ipt m) /\ iunp m = f (ipt m).
+Proof. exact init_parents_member. Qed.
+Print Assumptions C14_init_members_from_starting_points_consistent.
+
+(* (penalized, unpenalized) = (fp x, f x) for every penalized evaluation fp that agrees with f on the starting points: the
+   PenalizingEvaluator on feasible points (C14_penalized_eval_identity); init() rejects infeasible starting points *)
+Theorem C14_init_fitness_pair_of_own_point :
+  forall (X V : Type) (f : X -> V) (P : list X) (mu : nat) (oracle : list nat) (fp : X -> V),
+    (forall x, In x P -> fp x = f x) ->
+    forall m, In m (init_parents X V f P mu oracle) -> (ipen m, iunp m) = (fp (ipt m), f (ipt m)).
+Proof. exact init_parents_fitness_pair. Qed.
+Print Assumptions C14_init_fitness_pair_of_own_point.
+
+(* at most mu starting points: the first |P| members are P in order (for any oracle) *)
+Theorem C14_init_keeps_all_points_when_at_most_mu :
+  forall (X V : Type) (f : X -> V) (P : list X) (mu : nat) (oracle : list nat),
+    P <> [] -> length P <= mu ->
+    firstn (length P) (init_parents X V f P mu oracle) = map (ind_of X V f) P /\
+    firstn (length P) (map ipt (init_parents X V f P mu oracle)) = P.
+Proof. exact init_parents_prefix. Qed.
+Print Assumptions C14_init_keeps_all_points_when_at_most_mu.
+
+(* the whole population for an oracle as random::discrete produces it: the first numPoints starting points (all of P if
+   |P| <= mu, NONE if |P| > mu), then P[oracle[k]] *)
+Theorem C14_init_population_structure :
+  forall (X V : Type) (f : X -> V) (P : list X) (mu : nat) (oracle : list nat) (d : X),
+    P <> [] -> oracle_ok (length P) mu oracle = true ->
+    init_parents X V f P mu oracle =
+    map (ind_of X V f) (firstn (num_points (length P) mu) P) ++ map (fun i => ind_of X V f (nth i P d)) oracle.
+Proof. exact init_parents_structure. Qed.
+Print Assumptions C14_init_population_structure.
+
+(* more than mu starting points: what the code does is mu random copies (with replacement), NOT the first mu points *)
+Theorem C14_init_more_than_mu_points_all_random_copies :
+  forall (X V : Type) (f : X -> V) (P : list X) (mu : nat) (oracle : list nat) (d : X),
+    mu < length P -> oracle_ok (length P) mu oracle = true ->
+    init_parents X V f P mu oracle = map (fun i => ind_of X V f (nth i P d)) oracle /\ length oracle = mu.
+Proof. exact init_parents_more_than_mu. Qed.
+Print Assumptions C14_init_more_than_mu_points_all_random_copies.
+
+(* solution() after init *)
+Theorem C14_init_solution_consistent :
+  forall (X V : Type) (f : X -> V) (P : list X) (mu : nat) (oracle : list nat),
+    P <> [] ->
+    length (init_solution X V (init_parents X V f P mu oracle)) = mu /\
+    (forall x v, In (x, v) (init_solution X V (init_parents X V f P mu oracle)) -> In x P /\ v = f x) /\
+    init_solution X V (init_parents X V f P mu oracle) =
+      map (fun x => (x, f x)) (map ipt (init_parents X V f P mu oracle)).
+Proof. exact init_solution_spec. Qed.
+Print Assumptions C14_init_solution_consistent.
+
+(* SteadyStateMOCMA: sortRankOneToFront permutes parents and solution, rank-1 individuals first, for ANY rank-1 test *)
+Theorem C14_init_steady_state_mocma :
+  forall (X V : Type) (f : X -> V) (is1 : iind X V -> bool) (P : list X) (mu : nat) (oracle : list nat),
+    P <> [] ->
+    Permutation (ssmocma_init X V f is1 P mu oracle) (init_parents X V f P mu oracle) /\
+    length (ssmocma_init X V f is1 P mu oracle) = mu /\
+    (forall m, In m (ssmocma_init X V f is1 P mu oracle) ->
+       In (ipt m) P /\ ipen m = f (ipt m) /\ iunp m = f (ipt m)) /\
+    partitioned (iind X V) is1 (ssmocma_init X V f is1 P mu oracle) /\
+    Permutation (init_solution X V (ssmocma_init X V f is1 P mu oracle))
+                (init_solution X V (init_parents X V f P mu oracle)).
+Proof. exact ssmocma_init_spec. Qed.
+Print Assumptions C14_init_steady_state_mocma.
+
+Theorem C14_sort_rank_one_to_front :
+  forall (A : Type) (is1 : A -> bool) (l : list A),
+    Permutation (ss_sort is1 l) l /\ partitioned A is1 (ss_sort is1 l) /\
+    (forall a b, Forall (fun x => is1 x = true) a -> Forall (fun x => is1 x = false) b -> ss_sort is1 (a ++ b) = a ++ b).
+Proof.
+  intros A is1 l. split; [apply ss_sort_perm|]. split; [apply ss_sort_partitioned|]. apply ss_sort_partitioned_id.
+Qed.
+Print Assumptions C14_sort_rank_one_to_front.
+
+(* composition with the generation loop: started from ANY non-empty list of feasible starting points (fewer, as many or more
+   than mu, duplicates allowed), after init and after any number of generations of the generational / steady-state loop
+   solution() has mu elements (x, f(closest feasible x)) = (x, f x) for feasible x, and every reported point satisfies every
+   predicate that holds for the starting points and all offspring *)
+Theorem C14_init_then_generations_invariant :
+  forall (f : list Z -> list Z) feasible closest alpha m lcs mu d (Pred : list Z -> Prop),
+    valid_oracle lcs -> 1 <= mu -> (forall x, length (f x) = d) ->
+    forall (P : list (list Z)) oracle, P <> [] -> Forall (fun x => feasible x = true /\ Pred x) P ->
+    let pop0 := map to_ind (init_parents _ _ f P mu oracle) in
+    (forall history, Forall (Forall Pred) history ->
+       let pop := run_gen f feasible closest alpha m lcs mu history pop0 in
+       length (solution pop) = mu /\
+       forall x v, In (x, v) (solution pop) ->
+         Pred x /\ v = f (repaired feasible closest x) /\ (feasible x = true -> v = f x)) /\
+    (forall history, Forall Pred history ->
+       let pop := run_ss f feasible closest alpha m lcs mu history pop0 in
+       length (solution pop) = mu /\
+       forall x v, In (x, v) (solution pop) ->
+         Pred x /\ v = f (repaired feasible closest x) /\ (feasible x = true -> v = f x)).
+Proof. exact init_then_generations. Qed.
+Print Assumptions C14_init_then_generations_invariant.
+
+(* RVEA: the population size computed from approxMu (lattice ticks) is at least approxMu *)
+Theorem C14_rvea_population_size_at_least_approx_mu :
+  forall objectives approx_mu, 2 <= objectives -> 1 <= approx_mu -> approx_mu <= rvea_mu objectives approx_mu.
+Proof. exact rvea_mu_ge. Qed.
+Print Assumptions C14_rvea_population_size_at_least_approx_mu.
+
+Theorem C14_init_examples :
+  (oracle_ok 2 4 [1; 0] = true /\
+   init_parents nat nat sq [3; 5] 4 [1; 0] = [mk_iind 3 9 9; mk_iind 5 25 25; mk_iind 5 25 25; mk_iind 3 9 9] /\
+   init_solution nat nat (init_parents nat nat sq [3; 5] 4 [1; 0]) = [(3, 9); (5, 25); (5, 25); (3, 9)]) /\
+  (oracle_ok 4 2 [3; 3] = true /\
+   init_parents nat nat sq [3; 5; 7; 2] 2 [3; 3] = [mk_iind 2 4 4; mk_iind 2 4 4] /\
+   init_parents nat nat sq [3; 5; 7; 2] 2 [2; 0] = [mk_iind 7 49 49; mk_iind 3 9 9]) /\
+  (rvea_mu 2 5 = 5 /\ rvea_mu 3 7 = 10 /\ rvea_mu 3 10 = 10 /\ rvea_mu 3 11 = 15).
+Proof. exact (conj init_example_fewer_than_mu (conj init_example_more_than_mu rvea_mu_examples)). Qed.
+Print Assumptions C14_init_examples.
